@@ -282,6 +282,10 @@ def _line_name(family, ln):
             return ln.partition(" ")[2]
         if family == "unix":
             m = _UNIX_NAME.match(ln)
+            if not m and ln[:1].isspace():
+                # the type character itself was mutated into a blank: the first column is still the
+                # first ten characters (the client reads it by position, type 'unknown')
+                m = _UNIX_NAME.match("?" + ln[1:])
             if not m:
                 return None
             name = m.group(1) or ""  # eight columns and nothing after them: the name is empty
